@@ -319,6 +319,9 @@ where
             .to_u64()
             .unwrap()
             .max(mindepth)
+            // A target integration time shorter than one step must still integrate one step,
+            // otherwise the trajectory has no steps and the chain cannot move.
+            .max(1)
             .min(options.maxdepth);
 
         (mindepth, maxdepth)
